@@ -24,12 +24,58 @@ TWEAKS = [None, {"reverse_children": True}, {"duplicate_flags": True},
           {"stale_address": True}, {"vertices": "none"}, {"vertices": "junk"}]
 
 
+def edit_after_save(x, spec):
+    """Edits every node of the already-saved IR x through the public API and
+    returns the specification of the edited IR: the next save must describe
+    the current state, not anything remembered from the previous save."""
+    import copy
+
+    spec2 = copy.deepcopy(spec)
+    for kind, node, _ in irgen.walk(spec2):
+        o = x if kind == "ir" else x.get_by_uuid(node["uuid"])
+        if kind == "ir":
+            o.cfg.clear()
+            node["cfg"] = []
+            o.aux_data.clear()
+            node["aux"] = {}
+        elif kind == "module":
+            o.name = node["name"] = node["name"] + "~"
+            o.entry_point = None
+            node["entry"] = None
+            o.aux_data.clear()
+            node["aux"] = {}
+            o.rebase_delta = node["rebase_delta"] = (
+                node["rebase_delta"] - 1 if node["rebase_delta"] > 0
+                else node["rebase_delta"] + 1)
+        elif kind == "symbol":
+            o.name = node["name"] = node["name"] + "~"
+            o.at_end = node["at_end"] = not node["at_end"]
+        elif kind == "section":
+            o.name = node["name"] = node["name"] + "~"
+            o.flags.clear()
+            node["flags"] = []
+        elif kind == "interval":
+            o.address = node["address"] = None
+            o.contents = bytearray()
+            node["contents"] = b""
+            o.symbolic_expressions.clear()
+            node["symexprs"] = {}
+        elif kind == "block":
+            # stay inside uint64
+            o.size = node["size"] = (node["size"] + 1 if node["size"] < 8
+                                     else node["size"] - 1)
+    return spec2
+
+
 def check_spec(label, spec):
     import gtirb as g
     from gtirb.proto import IR_pb2
     from gtirb.version import PROTOBUF_VERSION as PV
 
     out = []
+    from .c01 import earlier_tables_with_unknown_types
+
+    earlier_tables_with_unknown_types()
     # ---------------- writer direction
     want_plain = irgen.spec_to_plain(spec, PV)
     for as_nodes in (False, True):
@@ -59,6 +105,29 @@ def check_spec(label, spec):
         if d:
             out.append(("C02/writer-field:%s" % ircases.path_class(d),
                         "%s: written vs schema-expected %s" % (label, d)))
+            continue
+        if as_nodes:
+            continue
+        # a second save after edits to every node
+        try:
+            spec2 = edit_after_save(x, spec)
+            buf = io.BytesIO()
+            x.save_protobuf_file(buf)
+            m2 = IR_pb2.IR()
+            m2.ParseFromString(buf.getvalue()[8:])
+            d = irgen.diff(irgen.msg_to_plain(m2),
+                           irgen.spec_to_plain(spec2, PV))
+        except Exception as e:  # noqa
+            import traceback
+
+            out.append(("C02/second-save-raises:%s" % type(e).__name__,
+                        "%s: %s" % (label, traceback.format_exc()[-300:])))
+            continue
+        if d:
+            out.append(("C02/second-save-writer-field:%s"
+                        % ircases.path_class(d),
+                        "%s: saved, edited, saved again: written vs "
+                        "schema-expected %s" % (label, d)))
     # ---------------- reader direction
     want_snap = irgen.expected_snapshot(spec, PV)
     for tw in TWEAKS:
